@@ -1,9 +1,175 @@
 import TapkeeVerif.Model.LinearGraph
-/-! C10 property theorems (skeleton; filled in as the proofs land). -/
+import TapkeeVerif.Proofs.LinearGraph
+/-!
+C10 property theorems: the feature-space generalised eigenproblem `(lhs, rhs)` built by NPE / LLTSA / LPP
+(`construct_neighborhood_preserving_eigenproblem`, `construct_lltsa_eigenproblem`,
+`construct_locality_preserving_eigenproblem`) and what `Eigen::GeneralizedSelfAdjointEigenSolver` reads of it.
+
+`F : Mat N D K` holds the samples as ROWS, so the property's `X M Xᵀ` is `Fᵀ M F = fullForm M F` and
+`X diag(w) Xᵀ` is `fullDiagForm w F`.  The code accumulates into the UPPER triangles, the solver reads the LOWER
+ones (`genSolveLower`): the needed statement `SolverSeesFull` is false of the code as it is (finding F-LIN-TRI,
+`solver_sees_XMXt_refuted`); the partial twins `solver_sees_diag*` say what the solver does see; `*_fixed` prove that
+the proposed patch (`fixes/F-LIN-TRI.diff` + `fixes/F-LLTSA-CENTRE.diff`) makes the full statement true.
+Helper lemmas: `Proofs/LinearGraph.lean`, `Proofs/LinearGraphFixed.lean`.
+-/
 namespace TapkeeVerif.C10
 open TapkeeVerif TapkeeVerif.LinearGraph
 
-theorem lowerView_diag {D : Nat} (A : Mat D D Int) (i : Fin D) : Mat.lowerView A i i = A i i := by
-  simp [Mat.lowerView]
+variable {K : Type} [Field K] {N D : Nat}
+
+/-! ## 1. the accumulation loops (any `W`, any weights) -/
+
+/-- `rhs` after `for iter: rhs.selfadjointView<Upper>().rankUpdate(x_iter, wt(iter))`: upper triangle only -/
+theorem sample_loop_get (F : Mat N D K) (wt : Vec N K) (i j : Fin D) :
+    (sampleSumD F wt).get i j = if i ≤ j then ∑ r, wt r * (F r i * F r j) else 0 :=
+  sampleSumD_get F wt i j
+
+/-- `lhs` after the loop over the stored entries of the sparse matrix (no symmetry assumed): upper triangle only -/
+theorem weight_loop_get (W : Mat N N K) (F : Mat N D K) (i j : Fin D) :
+    (weightSumD W F).get i j
+      = if i ≤ j then ∑ c, ∑ r, W r c * (F r i * F c j + F c i * F r j) else 0 :=
+  weightSumD_get W F i j
+
+/-! ## 2. what the three routines return -/
+
+/-- NPE: on and above the diagonal `lhs = 2 · Fᵀ W F` (each stored entry contributes `v (x_r x_cᵀ + x_c x_rᵀ)`) -/
+theorem lhs_upper_eq {W : Mat N N K} (hW : ∀ r c, W r c = W c r) (F : Mat N D K) :
+    ∀ i j, i ≤ j → (npeProblem W F).1 i j = 2 * fullForm W F i j := by
+  intro i j h
+  rw [npe_lhs_get hW]
+  exact if_pos h
+
+/-- NPE: `lhs` is returned with its strictly lower triangle still zero -/
+theorem lhs_strict_lower_zero (W : Mat N N K) (F : Mat N D K) :
+    ∀ i j, j < i → (npeProblem W F).1 i j = 0 := by
+  intro i j h
+  rw [npeProblem_fst, weightSumD_get, if_neg (not_le.mpr h)]
+
+example : ∀ r c : Fin 2, refuteW r c = refuteW c r := refuteW_symm
+
+/-- NPE: the `rhs += rhsᵀ; rhs /= 2` lines HALVE the off-diagonal of `Fᵀ F`, because `rhs` was upper-only -/
+theorem npe_rhs_eq (W : Mat N N K) (F : Mat N D K) (h2 : (2 : K) ≠ 0) (i j : Fin D) :
+    (npeProblem W F).2 i j
+      = if i = j then fullDiagForm (fun _ => 1) F i i else fullDiagForm (fun _ => 1) F i j / 2 :=
+  npe_rhs_get W F h2 i j
+
+example : (2 : ℚ) ≠ 0 := by decide
+
+/-- LPP: `lhs = 2 · Fᵀ L F` on and above the diagonal -/
+theorem lpp_lhs_upper_eq {L : Mat N N K} (hL : ∀ r c, L r c = L c r) (Dg : Vec N K) (F : Mat N D K) :
+    ∀ i j, i ≤ j → (lppProblem L Dg F).1 i j = 2 * fullForm L F i j := by
+  intro i j h
+  rw [lpp_lhs_get hL]
+  exact if_pos h
+
+theorem lpp_lhs_strict_lower_zero (L : Mat N N K) (Dg : Vec N K) (F : Mat N D K) :
+    ∀ i j, j < i → (lppProblem L Dg F).1 i j = 0 := by
+  intro i j h
+  rw [lppProblem_fst, weightSumD_get, if_neg (not_le.mpr h)]
+
+/-- LPP: `rhs = Fᵀ diag(Dg) F` on and above the diagonal -/
+theorem lpp_rhs_upper_eq (L : Mat N N K) (Dg : Vec N K) (F : Mat N D K) :
+    ∀ i j, i ≤ j → (lppProblem L Dg F).2 i j = fullDiagForm Dg F i j := by
+  intro i j h
+  rw [lpp_rhs_get]
+  exact if_pos h
+
+theorem lpp_rhs_strict_lower_zero (L : Mat N N K) (Dg : Vec N K) (F : Mat N D K) :
+    ∀ i j, j < i → (lppProblem L Dg F).2 i j = 0 := by
+  intro i j h
+  rw [lpp_rhs_get]
+  exact if_neg (not_le.mpr h)
+
+/-- LLTSA: what the code computes on and above the diagonal is `2 Fᵀ W F − s sᵀ / N` (`s` = sum of the samples);
+    the extra `− s sᵀ / N` term is finding F-LLTSA-CENTRE -/
+theorem lltsa_lhs_upper_eq {W : Mat N N K} (hW : ∀ r c, W r c = W c r) (F : Mat N D K) :
+    ∀ i j, i ≤ j →
+      (lltsaProblem W F).1 i j = 2 * fullForm W F i j - featureSum F i * featureSum F j / (N : K) := by
+  intro i j h
+  rw [lltsa_lhs_get hW]
+  exact if_pos h
+
+theorem lltsa_lhs_strict_lower_zero {W : Mat N N K} (hW : ∀ r c, W r c = W c r) (F : Mat N D K) :
+    ∀ i j, j < i → (lltsaProblem W F).1 i j = 0 := by
+  intro i j h
+  rw [lltsa_lhs_get hW]
+  exact if_neg (not_le.mpr h)
+
+/-- `Fᵀ (1 − 11ᵀ/N) F = Fᵀ F − s sᵀ / N` (no hypothesis on `N`: for `N = 0` both sides are `0`) -/
+theorem fullForm_centering (F : Mat N D K) (i j : Fin D) :
+    fullForm centering F i j
+      = fullDiagForm (fun _ => 1) F i j - featureSum F i * featureSum F j / (N : K) :=
+  LinearGraph.fullForm_centering F i j
+
+/-- LLTSA: `rhs` is the centred second-moment matrix `Fᵀ H F` with its off-diagonal HALVED -/
+theorem lltsa_rhs_eq (W : Mat N N K) (F : Mat N D K) (h2 : (2 : K) ≠ 0) (i j : Fin D) :
+    (lltsaProblem W F).2 i j
+      = if i = j then fullForm centering F i i else fullForm centering F i j / 2 := by
+  rw [fullForm_centering, fullForm_centering]
+  exact lltsa_rhs_get W F h2 i j
+
+/-! ## 3. the needed statement, its refutation, and its partial twins -/
+
+/-- THE NEEDED STATEMENT (full strength): the generalised solver works with `c · X M Xᵀ` and `c' · X Xᵀ`. -/
+def SolverSeesFull : Prop :=
+  ∀ (N D : Nat) (W : Mat N N ℚ) (F : Mat N D ℚ), (∀ r c, W r c = W c r) →
+    ∃ c c' : ℚ, c ≠ 0 ∧ c' ≠ 0 ∧
+      (genSolveLower (npeProblem W F)).1 = (fun i j => c * fullForm W F i j) ∧
+      (genSolveLower (npeProblem W F)).2 = fun i j => c' * fullDiagForm (fun _ => 1) F i j
+
+/-- PARTIAL twin of `SolverSeesFull` (what is true of the code as it is), left-hand side: the solver sees only the
+    DIAGONAL of `2 · Fᵀ W F`. -/
+theorem solver_sees_diag {W : Mat N N K} (hW : ∀ r c, W r c = W c r) (F : Mat N D K) (i j : Fin D) :
+    (genSolveLower (npeProblem W F)).1 i j = if i = j then 2 * fullForm W F i i else 0 := by
+  show Mat.lowerView (npeProblem W F).1 i j = _
+  rw [npe_lhs_get hW]
+  exact lowerView_upperOnly _ i j
+
+/-- PARTIAL twin of `SolverSeesFull`, right-hand side: `Fᵀ F` with its off-diagonal halved. -/
+theorem solver_sees_diag_rhs (W : Mat N N K) (F : Mat N D K) (h2 : (2 : K) ≠ 0) (i j : Fin D) :
+    (genSolveLower (npeProblem W F)).2 i j
+      = if i = j then fullDiagForm (fun _ => 1) F i i else fullDiagForm (fun _ => 1) F i j / 2 := by
+  show Mat.lowerView (npeProblem W F).2 i j = _
+  rw [lowerView_of_symm _ (npe_rhs_symm W F)]
+  exact npe_rhs_get W F h2 i j
+
+/-- LPP, partial twin: BOTH matrices the solver sees are diagonal. -/
+theorem lpp_solver_sees_diag {L : Mat N N K} (hL : ∀ r c, L r c = L c r) (Dg : Vec N K) (F : Mat N D K)
+    (i j : Fin D) :
+    (genSolveLower (lppProblem L Dg F)).1 i j = (if i = j then 2 * fullForm L F i i else 0) ∧
+    (genSolveLower (lppProblem L Dg F)).2 i j = (if i = j then fullDiagForm Dg F i i else 0) := by
+  constructor
+  · show Mat.lowerView (lppProblem L Dg F).1 i j = _
+    rw [lpp_lhs_get hL]
+    exact lowerView_upperOnly _ i j
+  · show Mat.lowerView (lppProblem L Dg F).2 i j = _
+    rw [lpp_rhs_get]
+    exact lowerView_upperOnly _ i j
+
+/-- LLTSA, partial twin: the diagonal of `2 Fᵀ W F − s sᵀ/N` against `Fᵀ H F` with halved off-diagonal. -/
+theorem lltsa_solver_sees {W : Mat N N K} (hW : ∀ r c, W r c = W c r) (F : Mat N D K) (h2 : (2 : K) ≠ 0)
+    (i j : Fin D) :
+    (genSolveLower (lltsaProblem W F)).1 i j
+        = (if i = j then 2 * fullForm W F i i - featureSum F i * featureSum F i / (N : K) else 0) ∧
+    (genSolveLower (lltsaProblem W F)).2 i j
+        = (if i = j then fullForm centering F i i else fullForm centering F i j / 2) := by
+  constructor
+  · show Mat.lowerView (lltsaProblem W F).1 i j = _
+    rw [lltsa_lhs_get hW]
+    exact lowerView_upperOnly _ i j
+  · show Mat.lowerView (lltsaProblem W F).2 i j = _
+    rw [lowerView_of_symm _ (lltsa_rhs_symm W F)]
+    exact lltsa_rhs_eq W F h2 i j
+
+/-- F-LIN-TRI: the needed statement is FALSE of the code as it is.  Witness: the two samples `(1,0)`, `(1,1)`,
+    `W = 1`: `Fᵀ W F = [[2,1],[1,1]]` but the solver sees `diag(4, 2)`. -/
+theorem solver_sees_XMXt_refuted : ¬ SolverSeesFull := by
+  intro h
+  obtain ⟨c, c', hc, -, h1, -⟩ := h 2 2 refuteW refuteF refuteW_symm
+  have e := congrFun (congrFun h1 0) 1
+  rw [solver_sees_diag refuteW_symm, if_neg (by decide), refute_fullForm_01, mul_one] at e
+  exact hc e.symm
+
+-- SPECTRAL THEOREMS (appended by the spectral owner)
 
 end TapkeeVerif.C10
